@@ -227,7 +227,7 @@ func shimSource(kind, pkg string) []byte {
 func LoadEngine(prop, tier string, seed int64) *Engine {
 	e := &Engine{tier: tier, seed: seed, prop: prop, targets: map[*ssa.Package]bool{}, prims: map[*ssa.Function]bool{},
 		coverSeen: map[string]bool{}, unknowns: map[string]int{}, solverErrs: map[string]int{},
-		maxGoroutines: 400, maxSteps: 200000000, maxDepth: 400, timeoutMs: 60000}
+		maxGoroutines: 10000, maxSteps: 200000000, maxDepth: 400, timeoutMs: 60000}
 	e.schedBudget = 2
 	e.crossEvery = 500
 	if tier == "thorough" {
